@@ -29,7 +29,8 @@ ObjEPs  == {"D_AddSubject", "D_AddOpenSubject", "D_AddClip", "D_TreeSubject"}
 BoolFreeEPs == {"BooleanOpD", "BooleanOpTreeD", "IntersectD", "UnionD", "DifferenceD", "XorD"}
 FreeEPs == BoolFreeEPs \cup
            {"Union1D", "InflatePathsD", "RectClipD", "RectClipPathD", "RectClipLinesD", "RectClipLinesPathD",
-            "TrimCollinearD", "MinkowskiSumD", "MinkowskiDiffD"}
+            "TrimCollinearD", "MinkowskiSumD", "MinkowskiDiffD",
+            "InflateOpenD", "TrimCollinearOpenD"}     \* InflatePaths with EndType::Round (open paths), TrimCollinear(.., is_open_path = true)
 (* ScalePath / ScalePaths <T1,T2>(path(s), scale_x, scale_y | scale, int& error_code): *)
 (* name = SP|SPS (path|paths), 1|2 (number of scale arguments), target, source type     *)
 EcIntEPs == {"SP2_I_D", "SP1_I_D", "SPS2_I_D", "SPS1_I_D", "SP2_I_I", "SP1_I_I", "SPS2_I_I", "SPS1_I_I"}   \* integer target
